@@ -507,21 +507,21 @@ class Circuit:
         substrings 'dff' or 'latch' are yielded first.
         """
         visit_count = np.zeros(len(self.nodes), dtype=np.uint32)
-        queue = deque(n for n in self.nodes if len(n.ins) == 0 or 'dff' in n.kind.lower() or 'latch' in n.kind.lower())
+        queue = deque(n for n in self.nodes if all(l is None for l in n.ins) or 'dff' in n.kind.lower() or 'latch' in n.kind.lower())
         while len(queue) > 0:
             n = queue.popleft()
             for line in n.outs:
                 if line is None: continue
                 succ = line.reader
                 visit_count[succ] += 1
-                if visit_count[succ] == len(succ.ins) and 'dff' not in succ.kind.lower() and 'latch' not in succ.kind.lower():
+                if visit_count[succ] == sum(l is not None for l in succ.ins) and 'dff' not in succ.kind.lower() and 'latch' not in succ.kind.lower():
                     queue.append(succ)
             yield n
 
     def topological_order_with_level(self):
         level = np.zeros(len(self.nodes), dtype=np.int32) - 1
         for n in self.topological_order():
-            if len(n.ins) == 0 or 'dff' in n.kind.lower() or 'latch' in n.kind.lower():
+            if all(l is None for l in n.ins) or 'dff' in n.kind.lower() or 'latch' in n.kind.lower():
                 l = 0
             else:
                 l = level[[l.driver.index for l in n.ins if l is not None]].max() + 1
